@@ -12,6 +12,7 @@ pub mod c18;
 pub mod c19;
 pub mod c08;
 pub mod c07;
+pub mod c05;
 pub mod smoke;
 pub mod exp;
 pub mod c01;
@@ -45,6 +46,7 @@ pub fn plan(id: &str, tier: &str) -> Option<Plan> {
         "C19" => Some(Plan::new(if _t { 40 } else { 12 }, 1500)),
         "C08" => Some(Plan::new(if _t { 48 } else { 12 }, 1500)),
         "C07" => Some(Plan::new(if _t { 40 } else { 12 }, 1500)),
+        "C05" => Some(Plan::new(if _t { 40 } else { 12 }, 1500)),
         _ => None,
     }
 }
@@ -62,6 +64,7 @@ pub fn spec(id: &str) -> Option<Spec> {
         "C19" => Some(c19::spec()),
         "C08" => Some(c08::spec()),
         "C07" => Some(c07::spec()),
+        "C05" => Some(c05::spec()),
         _ => None,
     }
 }
@@ -79,6 +82,7 @@ pub fn worker(ctx: &WorkerCtx) -> WorkerReport {
         "C19" => c19::worker(ctx),
         "C08" => c08::worker(ctx),
         "C07" => c07::worker(ctx),
+        "C05" => c05::worker(ctx),
         other => {
             let mut r = WorkerReport::default();
             r.inconclusive(format!("no worker for {}", other));
